@@ -12,7 +12,7 @@ RULE = ('1-2 real ActiveObjects subscribe to a signal with queue_type fifo, lifo
         'publish while the scheduler starves the consumer thread, so that events are pending when a delivery thread delivers '
         '(the stalled consumer is the injected fault). Oracle on the linearised history of the object\'s pending-event deque: a '
         'delivery made for a lifo subscription puts the event at index 0 (as post_lifo would), one made for a fifo subscription '
-        'puts it last (as post_fifo would). Non-trivial = a delivery made while >= 1 event was pending; distinct = distinct '
+        'puts it last (as post_fifo would), and every publication is delivered exactly once per subscribed kind. Non-trivial = a delivery made while >= 1 event was pending; distinct = distinct '
         '(subscription kind, number pending at delivery, delivering thread) tuples.')
 ASSUMPTIONS = ['anchor: docs/source/recipes.rst ("subscribes in a lifo way -> posted with post_lifo") and glossary.rst']
 PROBES = ['delivery_with_pending_events']
@@ -80,6 +80,26 @@ def execute(sc, sched):
             res.violate('delivery-end', {'thread': role, 'op': op},
                         '%s subscribed to %s as %s; event %s was delivered with %s (%d event(s) pending, it landed at index %d): a %s subscription must place it at the %s' % (
                           run.names[oi], run.pubs[uid]['sig'], kind, uid, op, len_before, index_after, kind, 'front' if kind == 'lifo' else 'back'))
+      if res.outcome != 'violation':
+        # the subscriptions were made (and the system was idle) before anything was published:
+        # every publication owes one delivery per subscribed kind
+        for uid, p in sorted(run.pubs.items()):
+          if p['end'] is None:
+            continue
+          for oi in range(len(run.objs)):
+            kinds = sorted(set(s['kind'] for s in run.subs if s['obj'] == oi and s['sig'] == p['sig'] and s['end'] is not None))
+            q = ac.replay_queue(run, oi)
+            for kind in kinds:
+              role = 'fabric.' + kind
+              n = sum(1 for a in q['adds'] if a[3] == uid and a[1].split('#')[0] == role)
+              if n != 1:
+                res.violate('delivery-missing-for-kind', {'kind': kind, 'n': n, 'both': len(kinds) == 2},
+                            '%s subscribed to %s as %s; event %s was delivered %d time(s) by the %s thread' % (run.names[oi], p['sig'], kinds, uid, n, kind))
+                break
+            if res.outcome == 'violation':
+              break
+          if res.outcome == 'violation':
+            break
     if res.outcome == 'violation' or sched.get('seed', 0) % 499 == 0:
       res.sample = {'clients': sc['clients'], 'sched': sc['sched'],
                     'queue_ops_ao1': [(tn, op, str(p)) for _, tn, op, p, _ in (run.queue_ops(0)[:20] if run.objs else [])]}
